@@ -135,6 +135,11 @@ func contractHasTag(c *Contract, p string) bool {
 				return true
 			}
 		}
+		for _, cl := range l.Entries {
+			if hasTag(cl.Tags, p) {
+				return true
+			}
+		}
 		if l.Decreases != nil && hasTag(l.Decreases.Tags, p) {
 			return true
 		}
